@@ -43,11 +43,16 @@ def Nraw(x):
 
     if isinstance(x, dict):
         return {k: Nraw(v) for k, v in x.items()}
+    if isinstance(x, tuple) and hasattr(x, "_fields"):
+        return x  # namedtuple keys (PositionInfo): integers that identify, not amounts
     if isinstance(x, (list, tuple)):
         return type(x)(Nraw(v) for v in x)
     if isinstance(x, (symx.Sym, Decimal, float)) or (isinstance(x, int) and not isinstance(x, bool)):
         return N(x)
     return x
+
+
+PROGRAMMING_ERRORS = ("AttributeError", "TypeError", "NameError", "UnboundLocalError", "ValueError")
 
 
 @dataclass
@@ -88,6 +93,9 @@ def nv_step(ctx):
         tag = f"{p['market']}.{op}" + ("" if k == 0 else " (second operation)")
         res = w.apply(ctx, op, suffix="" if k == 0 else "_2")
         ctx.outcome(("accepted" if res.accepted else "rejected:" + res.label) + ("" if k == 0 else "#2"))
+        if not res.accepted and res.label.split(":")[0] in PROGRAMMING_ERRORS:
+            # not a rejection the operation documents: almost certainly a defect (or a harness gap) -- never silently counted as "rejected"
+            ctx.check(f"{tag}: the operation does not fail with a programming error ({res.label.split(':')[0]})", False, detail=res.label)
         raw1 = Nraw(w.raw())
         o1 = N(w.oracle(raw1))
         r1 = N(reported(w).net_value)
@@ -102,8 +110,10 @@ def nv_step(ctx):
             items = []
             # the property's observation point is the REPORTED net value; the oracle valuation is checked as well so that a
             # stale report cannot hide (or fake) a change of the real holdings
-            items.append((f"{tag} [{acc}]: net value (independent valuation) does not rise by more than wallet dust", o1 <= o0 + dust))
-            items.append((f"{tag} [{acc}]: reported net value does not rise by more than wallet dust", r1 <= r0 + dust + tol0 + tol1))
+            # a position lent to / returned from a vault is re-valued (index vs mark price of its oSQTH part): stated, not value creation
+            rv = res.revalue if (res.accepted and res.kind == "revalue") else 0
+            items.append((f"{tag} [{acc}]: net value (independent valuation) does not rise by more than wallet dust", o1 <= o0 + rv + dust))
+            items.append((f"{tag} [{acc}]: reported net value does not rise by more than wallet dust", r1 <= r0 + rv + dust + tol0 + tol1))
             if res.accepted:
                 if res.kind == "conserve":
                     items.append((f"{tag}: conserves net value up to wallet dust", sabs(o1 - o0) <= dust))
@@ -496,3 +506,351 @@ class Gmx2NV:
 
 
 BUILDERS.update({"deribit": DeribitNV, "gmx1": Gmx1NV, "gmx2": Gmx2NV})
+
+
+# ======================================================================================================== Squeeth (+ its oSQTH/WETH pool)
+
+
+class SqueethNV:
+    """account quote USD; Squeeth market quotes in USD, its Uniswap pool in WETH (differs from the account quote).
+    The oSQTH price of the Squeeth row is the pool's price (both come from the same pool in the repo's data)."""
+
+    IDX = D(10000)
+
+    def __init__(self, ctx, p):
+        from demeter._typing import USD
+        from .squeeth import SqueethWorld, TICK
+
+        self.ctx, self.p = ctx, p
+        self.P = ctx.dec("eth_price", 500, 5000)
+        self.nf = ctx.dec("norm_factor", D("0.1"), 1)
+        ww, wo = ctx.dec("wallet_weth", 0, 1000), ctx.dec("wallet_osqth", 0, 10000)
+        # pool price first (needs the world): build with a placeholder oSQTH price, then install the consistent row
+        self.w = SqueethWorld(ctx, self.P, D(1), self.nf, wallet_weth=ww, wallet_osqth=wo)
+        self.po = self.w.pool_price
+        import pandas as pd
+        from demeter import MarketStatus
+
+        self.w.m.set_market_status(MarketStatus(timestamp=None, data=pd.Series(data=[self.nf, self.P, self.po], index=["norm_factor", "WETH", "OSQTH"], dtype=object)), price=None)
+        self.broker = self.w.broker
+        self.broker.quote_token = USD
+        self.m, self.uni = self.w.m, self.w.uni
+        self._w0 = (ww, wo)
+        c = ctx.dec("collateral", 0, 1000)
+        s = ctx.dec("short", 0, 10000) if p.get("short", True) else D(0)
+        lp = None
+        if p.get("lp"):
+            lp = (ctx.int_("lp_liquidity", 1, 10**21), ctx.dec("lp_pending_weth", 0, 10), ctx.dec("lp_pending_osqth", 0, 100))
+        self.key = self.w.add_vault(c, s, lp)
+        self.free = None
+        if p.get("free_lp"):
+            self.free = self.w.add_free_lp(ctx.int_("free_lp_liquidity", 0, 10**21), ctx.dec("free_pending_weth", 0, 10), ctx.dec("free_pending_osqth", 0, 100))
+        # representation invariant: a vault with debt that exists between operations is safe (an unsafe one is liquidated at bar end -- C14)
+        coll = self._vault_coll(Nraw(self.raw()), self.key.id)
+        margin = N(D("1e-12")) if ctx.sym else 0  # keeps the witness values (rounded to 60 digits) inside the assumption
+        ctx.assume(sor(N(s) == 0, sand(coll * 2 >= N(s) * N(self.nf) * N(self.P) / N(self.IDX) * 3 * (1 + margin), coll >= N(D("0.5")) * (1 + margin))))
+
+    def prices(self):
+        return {"WETH": self.P, "OSQTH": self.po * self.P, "USD": D(1)}
+
+    def raw(self):
+        r = self.w.raw()
+        # LP amounts per position by the closed forms (harness oracle), computed while the position still exists
+        r["lp"] = {k: self.w.lp_amounts(k) for k in self.uni._positions}
+        return r
+
+    def wallet_value(self, raw):
+        return raw["weth"] * N(self.P) + raw["osqth"] * N(self.po) * N(self.P)
+
+    def _vault_coll(self, raw, vid):
+        c, s, nft = raw["vault"][vid]
+        if nft is None:
+            return c
+        a_weth, a_osqth = raw["lp"][nft]
+        return c + a_weth + a_osqth * N(self.nf) * N(self.P) / N(self.IDX)
+
+    def _squeeth(self, raw):
+        tot = N(0)
+        for vid, (c, s, nft) in raw["vault"].items():
+            tot = tot + self._vault_coll(raw, vid) * N(self.P) - s * N(self.po) * N(self.P)
+        return tot
+
+    def _uni(self, raw):
+        """in WETH (the pool's quote token): positions still held by the user, at the pool (mark) price"""
+        tot = N(0)
+        for k, (liq, p0, p1, transferred) in raw["pos"].items():
+            if transferred:
+                continue
+            a_weth, a_osqth = raw["lp"][k]
+            tot = tot + a_weth + a_osqth * N(self.po)
+        return tot
+
+    def oracle(self, raw):
+        return self.wallet_value(raw) + self._squeeth(raw) + self._uni(raw) * N(self.P)
+
+    def _unit_tol(self, raw):
+        # integer rounding of the v3 amounts: 2 on-chain units (1e-18) per token and position
+        return N(D("4e-18")) * (1 + N(self.po)) * max(len(raw["pos"]), 1)
+
+    def report_tol(self, raw):
+        return self._unit_tol(raw) * N(self.P)
+
+    def market_values(self, raw):
+        return [("squeeth", self._squeeth(raw), self._unit_tol(raw) * N(self.P)), ("uni", self._uni(raw), self._unit_tol(raw))]
+
+    def market_key(self, name):
+        return self.m.market_info if name == "squeeth" else self.uni.market_info
+
+    def nonneg(self, raw):
+        out = [("wallet WETH", raw["weth"] >= 0), ("wallet oSQTH", raw["osqth"] >= 0)]
+        for vid, (c, s, nft) in raw["vault"].items():
+            out.append((f"vault collateral", c >= 0))
+            out.append((f"vault short amount", s >= 0))
+        for k, (liq, p0, p1, tr) in raw["pos"].items():
+            out.append(("LP liquidity and pending fees", sand(liq >= 0, p0 >= 0, p1 >= 0)))
+        return out
+
+    def wallet_unchanged(self):
+        r = self.w.raw()
+        return sand(r["weth"] == self._w0[0], r["osqth"] == self._w0[1])
+
+    def apply(self, ctx, op, suffix=""):
+        from .aave_ops import stem
+
+        m, key = self.m, self.key
+        before = Nraw(self.raw())
+        touched = self.wallet_value(before)
+        kind, fee_value, revalue, payouts = "conserve", 0, 0, []
+        extra = self.report_tol(before)
+        try:
+            if op == "mint":
+                m.open_deposit_mint(ctx.dec("deposit" + suffix, 0, 500), ctx.dec("mint" + suffix, 0, 5000), vault_key=key)
+            elif op == "open":
+                m.open_deposit_mint(ctx.dec("deposit" + suffix, 0, 500), ctx.dec("mint" + suffix, 0, 5000))
+            elif op == "deposit":
+                m.deposit(key, ctx.dec("deposit" + suffix, 0, 2000))
+            elif op == "burn_withdraw":
+                b, wd = ctx.dec("burn" + suffix, 0, 20000), ctx.dec("withdraw" + suffix, 0, 2000)
+                m.burn_and_withdraw(key, b, wd)
+                payouts.append(("vault collateral", N(self.broker.get_token_balance(self.w.WETH)) - before["weth"], before["vault"][key.id][0]))
+            elif op in ("withdraw_lp", "deposit_lp"):
+                pos = m.vault[key].uni_nft_id if op == "withdraw_lp" else self.free
+                a_weth, a_osqth = before["lp"][pos]
+                # the vault values the lent position's oSQTH at the index price, the pool at the mark price
+                delta = a_osqth * (N(self.nf) * N(self.P) / N(self.IDX) - N(self.po)) * N(self.P)
+                kind, revalue = "revalue", (delta if op == "deposit_lp" else -delta)
+                if op == "withdraw_lp":
+                    m.withdraw_uni_position(key, pos)
+                else:
+                    m.deposit_uni_position(key, pos)
+            elif op in ("buy_squeeth", "sell_squeeth"):
+                a = ctx.dec("osqth_amount" + suffix, 0, 20000)
+                fee, x, y = (m.buy_squeeth if op == "buy_squeeth" else m.sell_squeeth)(a)
+                kind = "fee"
+                # buy: fee in the quote token (WETH); sell: fee in the base token (oSQTH)
+                fee_value = N(fee) * N(self.P) if op == "buy_squeeth" else N(fee) * N(self.po) * N(self.P)
+            else:
+                raise ValueError(op)
+        except Exception as e:
+            return OpResult(False, stem(e), touched=touched, extra_dust=extra)
+        return OpResult(True, kind=kind, fee_value=fee_value, revalue=revalue, touched=touched, extra_dust=extra, payouts=payouts)
+
+
+BUILDERS["squeeth"] = SqueethNV
+
+
+# ======================================================================================================== Uniswap v3 LP
+
+
+def _hp(fn):
+    """evaluate fn under 80-digit Decimal precision (harness-side constants)"""
+    import decimal
+
+    with decimal.localcontext() as c:
+        c.prec = 80
+        return fn()
+
+
+class UniNV:
+    """one real UniLpMarket (either token order) + Broker; account quote = the pool's quote token, or USD with a symbolic
+    price of the pool's quote token (market quote differs from account quote)"""
+
+    def __init__(self, ctx, p):
+        from demeter._typing import USD
+        from demeter.uniswap import PositionInfo, Position
+        from ..props.c09 import Side, _range
+
+        self.ctx, self.p = ctx, p
+        dq, db = p.get("dq", 6), p.get("db", 18)
+        vq = ctx.int_("vol_quote_wei", 0, 10 ** (dq + 9))
+        vb = ctx.int_("vol_base_wei", 0, 10 ** (db + 6))
+        liq = ctx.int_("pool_liquidity", 10**10, 10**26)
+        wb, wq = ctx.dec("wallet_base", 0, 10**6), ctx.dec("wallet_quote", 0, 10**9)
+        self.s = Side(ctx, p.get("t0q", True), dq, db, p["tick"], p.get("fee", 0.05), (vq, vb), liq, wb, wq)
+        self.m, self.broker = self.s.m, self.s.broker
+        self.Q, self.B = self.s.Q, self.s.B
+        self._w0 = (wb, wq)
+        self.price = self.m.market_status.data.price  # concrete Decimal: quote per base
+        if p.get("account_quote", "same") == "same":
+            self.broker.quote_token = self.Q
+            self.pq = D(1)
+        else:
+            self.broker.quote_token = USD
+            self.pq = ctx.dec("quote_token_price", D("0.01"), 100)
+        self.ranges = {}
+        # direct-state positions (reachable by add_liquidity + fee bars): symbolic liquidity and pending fees
+        for i, rg in enumerate(p.get("positions", ())):
+            lo_a, hi_a = _range(dict(tick=p["tick"], range=rg))
+            lo, hi = self.s.ticks(lo_a, hi_a)
+            key = PositionInfo(lo, hi)
+            L = ctx.int_(f"liq{i}", 0 if p.get("allow_dry") else 1, 10**24)
+            p0, p1 = ctx.dec(f"pending0_{i}", 0, 10**6), ctx.dec(f"pending1_{i}", 0, 10**6)
+            pl, ph = self.m.tick_to_price(lo), self.m.tick_to_price(hi)
+            if self.s.t0q:
+                pl, ph = ph, pl
+            self.m._positions[key] = Position(p0, p1, L, pl, ph, self.price)
+            self.ranges[key] = rg
+        self.keys = list(self.m._positions)
+        self._consts = {}
+
+    # ---- closed-form v3 amounts, written from the whitepaper (not calling the repo's liquidity math)
+    def _per_liquidity(self, key):
+        """(token0, token1) held per unit of liquidity at the bar price, in whole tokens"""
+        if key in self._consts:
+            return self._consts[key]
+        d0, d1 = self.m.pool_info.token0.decimal, self.m.pool_info.token1.decimal
+
+        def calc():
+            one = D("1.0001")
+            sa = (one ** D(key.lower_tick)).sqrt()
+            sb = (one ** D(key.upper_tick)).sqrt()
+            ratio = (1 / self.price if self.s.t0q else self.price) * D(10) ** (d1 - d0)  # token1 per token0, in on-chain units
+            sp = min(max(ratio.sqrt(), sa), sb)
+            return ((sb - sp) / (sb * sp) / D(10) ** d0, (sp - sa) / D(10) ** d1)
+
+        self._consts[key] = tuple(N(x) for x in _hp(calc))
+        return self._consts[key]
+
+    def prices(self):
+        d = {self.Q.name: self.pq, self.B.name: self.price * self.pq}
+        d["USD"] = D(1)
+        return d
+
+    def raw(self):
+        pos = {k: (v.liquidity, v.pending_amount0, v.pending_amount1, v.transferred) for k, v in self.m._positions.items()}
+        wb, wq = self.s.wallet()
+        return dict(pos=pos, wb=wb, wq=wq, n_actions=len(self.s.actions))
+
+    def wallet_value(self, raw):
+        return (raw["wb"] * N(self.price) + raw["wq"]) * N(self.pq)
+
+    def _value01(self, a0, a1):
+        """value of (token0, token1) amounts in the pool's quote token"""
+        base, quote = (a1, a0) if self.s.t0q else (a0, a1)
+        return base * N(self.price) + quote
+
+    def _market(self, raw):
+        tot = N(0)
+        for k, (L, p0, p1, tr) in raw["pos"].items():
+            if tr:
+                continue
+            c0, c1 = self._per_liquidity(k)
+            tot = tot + self._value01(L * c0 + p0, L * c1 + p1)
+        return tot
+
+    def oracle(self, raw):
+        return self.wallet_value(raw) + self._market(raw) * N(self.pq)
+
+    def _unit_tol(self, n_pos):
+        d0, d1 = self.m.pool_info.token0.decimal, self.m.pool_info.token1.decimal
+        # the implementation rounds amounts to whole on-chain units (and sqrt prices to Q64.96 integers): 3 units per token and position
+        return self._value01(N(3) / N(10**d0), N(3) / N(10**d1)) * max(n_pos, 1)
+
+    def report_tol(self, raw):
+        return self._unit_tol(len(raw["pos"])) * N(self.pq) + N(D("1e-18")) * sabs(self._market(raw)) * N(self.pq)
+
+    def market_values(self, raw):
+        return [("uni", self._market(raw), self._unit_tol(len(raw["pos"])) + N(D("1e-18")) * sabs(self._market(raw)))]
+
+    def market_key(self, name):
+        return self.m.market_info
+
+    def nonneg(self, raw):
+        out = [("wallet base", raw["wb"] >= 0), ("wallet quote", raw["wq"] >= 0)]
+        for k, (L, p0, p1, tr) in raw["pos"].items():
+            out.append(("position liquidity", L >= 0))
+            out.append(("position pending amounts", sand(p0 >= 0, p1 >= 0)))
+        return out
+
+    def wallet_unchanged(self):
+        wb, wq = self.s.wallet()
+        return sand(wb == self._w0[0], wq == self._w0[1])
+
+    def apply(self, ctx, op, suffix=""):
+        from .aave_ops import stem
+        from ..props.c09 import _range, _wei_amount
+
+        m, p, s = self.m, self.p, self.s
+        before = Nraw(self.raw())
+        touched = self.wallet_value(before)
+        extra = self._unit_tol(len(before["pos"]) + 1) * N(self.pq) + N(D("1e-18")) * (sabs(self._market(before)) + touched) * N(self.pq)
+        kind, fee_value, payouts = "conserve", 0, []
+        key = self.keys[0] if self.keys else next(iter(m._positions), None)
+        if key is None and op in ("remove", "collect"):
+            from ..harness import Reject
+
+            raise Reject("no position to operate on (the preceding add was rejected)")
+        try:
+            if op == "add":
+                lo_a, hi_a = _range(dict(tick=p["tick"], range=p.get("add_range", "inside")))
+                lo, hi = s.ticks(lo_a, hi_a)
+                base_amt = _wei_amount(ctx, "add_base_wei" + suffix, self.B.decimal, -3, 7)
+                quote_amt = _wei_amount(ctx, "add_quote_wei" + suffix, self.Q.decimal, -3, 10)
+                m.add_liquidity_by_tick(lo, hi, base_amt, quote_amt)
+            elif op == "remove":
+                liq = ctx.int_("remove_liquidity" + suffix, 0, 10**25) if p.get("partial") else None
+                c0, c1 = self._per_liquidity(key)
+                L, p0, p1, _ = before["pos"][key]
+                got = m.remove_liquidity(key, liq, p.get("collect", True))
+                if p.get("collect", True):
+                    wb, wq = s.wallet()
+                    d0, d1 = s.t01(N(wb) - before["wb"], N(wq) - before["wq"])
+                    payouts.append(("token0 of the position", d0, L * c0 + p0))
+                    payouts.append(("token1 of the position", d1, L * c1 + p1))
+            elif op == "collect":
+                L, p0, p1, _ = before["pos"][key]
+                cap0 = ctx.dec("cap0" + suffix, 0, 2 * 10**6) if p.get("caps", True) else None
+                cap1 = ctx.dec("cap1" + suffix, 0, 2 * 10**6) if p.get("caps", True) else None
+                m.collect_fee(key, cap0, cap1)
+                wb, wq = s.wallet()
+                d0, d1 = s.t01(N(wb) - before["wb"], N(wq) - before["wq"])
+                payouts.append(("pending token0", d0, p0))
+                payouts.append(("pending token1", d1, p1))
+            elif op in ("buy", "sell"):
+                a = ctx.dec("amount" + suffix, 0, 10**7)
+                fee, x, y = getattr(m, op)(a)
+                kind = "fee"
+                fee_value = (N(fee) if op == "buy" else N(fee) * N(self.price)) * N(self.pq)  # buy: fee in quote token; sell: in base token
+            elif op in ("swap_b2q", "swap_q2b"):
+                a = ctx.dec("amount" + suffix, 0, 10**9)
+                fee, got = m.swap(a, s.B, s.Q) if op == "swap_b2q" else m.swap(a, s.Q, s.B)
+                kind = "fee"
+                fee_value = (N(fee) * N(self.price) if op == "swap_b2q" else N(fee)) * N(self.pq)
+            elif op == "even_rebalance":
+                m.even_rebalance()
+                kind = "lossy"
+            elif op == "add_by_value":
+                lo_a, hi_a = _range(dict(tick=p["tick"], range=p.get("add_range", "inside")))
+                lo, hi = s.ticks(lo_a, hi_a)
+                m.add_liquidity_by_value(lo, hi, ctx.dec("value" + suffix, D("1"), 10**9))
+                kind = "lossy"
+            elif op == "remove_all":
+                m.remove_all_liquidity()
+            else:
+                raise ValueError(op)
+        except Exception as e:
+            return OpResult(False, stem(e), touched=touched, extra_dust=extra)
+        return OpResult(True, kind=kind, fee_value=fee_value, touched=touched, extra_dust=extra, payouts=payouts)
+
+
+BUILDERS["uni"] = UniNV
